@@ -170,13 +170,46 @@ pub fn case(ctx: &mut CaseCtx) {
         let p = typed_policy(&mut g, depth);
         (p, g.faults)
     };
+    // one case in five is a template: `principal is P in ?principal` (still pinning the environment),
+    // linked to an entity of a type P can be a member of
+    let mut pol = pol;
+    let mut link_principal: Option<Uid> = None;
+    if ctx.rng.chance(1, 5) {
+        let cands: Vec<String> = gs.entity_types.iter().map(|e| e.name.clone()).filter(|t| *t == env.principal_ty || gs.type_can_descend(&env.principal_ty, t)).collect();
+        if !cands.is_empty() {
+            let t = ctx.rng.pick_clone(&cands);
+            let pool = wg.pools.get(&t).cloned().unwrap_or_default();
+            let u = if pool.is_empty() { Uid::new(&t, "a") } else { ctx.rng.pick_clone(&pool) };
+            pol.principal = ScopePR::IsIn(env.principal_ty.clone(), EntOrSlot::Slot);
+            link_principal = Some(u);
+            ctx.count("family:template-linked");
+        }
+    }
     let text = render::policy_text(&pol, &mut TextOpts::plain(&mut ctx.rng));
-    let policy = match Policy::parse(Some(PolicyId::new("p")), &text) {
-        Ok(p) => p,
-        Err(e) => return ctx.harness_error(format!("typed policy does not parse: {text}: {e}")),
-    };
     let mut pset = PolicySet::new();
-    pset.add(policy.clone()).expect("add");
+    let policy = match &link_principal {
+        None => {
+            let policy = match Policy::parse(Some(PolicyId::new("p")), &text) {
+                Ok(p) => p,
+                Err(e) => return ctx.harness_error(format!("typed policy does not parse: {text}: {e}")),
+            };
+            pset.add(policy.clone()).expect("add");
+            policy
+        }
+        Some(u) => {
+            let t = match cedar_policy::Template::parse(Some(PolicyId::new("t")), &text) {
+                Ok(t) => t,
+                Err(e) => return ctx.harness_error(format!("typed template does not parse: {text}: {e}")),
+            };
+            pset.add_template(t).expect("add_template");
+            let mut vals = HashMap::new();
+            vals.insert(cedar_policy::SlotId::principal(), bridge::uid(u));
+            if let Err(e) = pset.link(PolicyId::new("t"), PolicyId::new("p"), vals) {
+                return ctx.harness_error(format!("link: {e}"));
+            }
+            pset.policy(&PolicyId::new("p")).expect("linked policy").clone()
+        }
+    };
     let validator = Validator::new(schema.clone());
     let strict = validator.validate(&pset, ValidationMode::Strict);
     let permissive = validator.validate(&pset, ValidationMode::Permissive);
@@ -220,8 +253,11 @@ pub fn case(ctx: &mut CaseCtx) {
     let mut typed: Option<(Expr<Option<Type>>, bool)> = None; // (typed condition, irrelevant?)
     for (renv, check) in tc.typecheck_by_request_env(template) {
         let matches_env = match &renv {
-            cedar_policy_core::validator::types::RequestEnv::DeclaredAction { principal, action, resource, .. } => {
-                principal.to_string() == env.principal_ty && resource.to_string() == env.resource_ty && bridge::core_uid_back(action) == env.action
+            cedar_policy_core::validator::types::RequestEnv::DeclaredAction { principal, action, resource, principal_slot, .. } => {
+                principal.to_string() == env.principal_ty
+                    && resource.to_string() == env.resource_ty
+                    && bridge::core_uid_back(action) == env.action
+                    && principal_slot.as_ref().map(|t| t.to_string()) == link_principal.as_ref().map(|u| u.ty.clone())
             }
             _ => false,
         };
@@ -345,7 +381,7 @@ pub fn case(ctx: &mut CaseCtx) {
         let creq: ast::Request = AsRef::<ast::Request>::as_ref(&req).clone();
         let ev = Evaluator::new(creq, ents.as_ref(), Extensions::all_available());
         cedar_policy_core::verif_hooks::start_trace();
-        let r = ev.interpret(&erased, &HashMap::new());
+        let r = ev.interpret(&erased, core_policy.env());
         let trace = cedar_policy_core::verif_hooks::take_trace();
         ctx.add("trace_events_checked", trace.len() as u64);
         for evn in &trace {
